@@ -20,10 +20,6 @@ package maintenance
 //@   ensures one: result == nil ==> dbN == old(dbN) + 1
 //@   ensures prefix: forall j int :: 0 <= j && j < old(dbN) ==> dbStmt[j] == old(dbStmt)[j]
 
-// Splits a script file into statements (regexp based, not verified): touches nothing.
-//@ func getSQLFile
-//@   modifies nothing
-
 // Migration of one stream k.  `ver` is the version read back from the database
 // (assumed to be the recorded one); scripts ver .. len-1 are executed in order,
 // each followed by its version record, and nothing else of this stream.
@@ -149,3 +145,26 @@ package maintenance
 // Initialisation applies each script file under its own stream key.
 //@ func Update [C18]
 //@   requires streamUsed == constmap("Int", false)
+
+// A migration file is cut into scripts at ";" + blank line; every script handed on
+// is a non-empty trimmed piece - a piece that is only blank space is no script (it
+// would be sent to the server as an empty statement and recorded as a version).
+//@ func getSQLFile [C18]
+//@   flag checks=-index,-assert
+//@   modifies nothing
+//@   ensures no-empty-script: forall k int :: 0 <= k && k < len(result0) ==> result0[k] != ""
+//@   loop 1:
+//@     invariant forall k int :: 0 <= k && k < len(res) ==> res[k] != ""
+//@     modifies allocated
+
+// The retention tiers handed to Rotate are exactly the configured ones: every tier's
+// timeout is a valid duration and its target disk is the configured one - a tier
+// that cannot be read stops the run (an empty tier would become a delete rule).
+//@ func rotateDB [C19]
+//@   flag checks=-index,-assert
+//@   requires settingUsed == constmap("Str", false)
+//@   at maintenance.Rotate tiers-are-the-configured-ones: len(arg3) == len(dbObject.TTLPolicy) && (forall k int :: 0 <= k && k < len(arg3) ==> durOk(dbObject.TTLPolicy[k].Timeout) && arg3[k].TTL == durOf(dbObject.TTLPolicy[k].Timeout) && arg3[k].MoveTo == dbObject.TTLPolicy[k].MoveTo)
+//@   loop 1:
+//@     invariant rangeindex >= -1 && len(ttlPolicy) == len(dbObject.TTLPolicy)
+//@     invariant forall k int :: 0 <= k && k <= rangeindex ==> durOk(dbObject.TTLPolicy[k].Timeout) && ttlPolicy[k].TTL == durOf(dbObject.TTLPolicy[k].Timeout) && ttlPolicy[k].MoveTo == dbObject.TTLPolicy[k].MoveTo
+//@     modifies elems(ttlPolicy)
